@@ -9,6 +9,7 @@ import (
 	"net/url"
 	"strconv"
 	"strings"
+	"sync"
 	"testing/synctest"
 	"time"
 
@@ -96,6 +97,7 @@ type World struct {
 	rootsFile string
 	started   int
 	auditing  bool
+	mu        sync.Mutex // timed mode only: guards opSeq and active
 }
 
 // New returns a constructor for the kernel.
@@ -585,8 +587,10 @@ func (w *World) AfterStep(s *kernel.Sim) {
 		}
 		op.Checked = true
 		w.active--
-		w.opSeq++
-		op.EndSeq = w.opSeq
+		if !op.timedEnd {
+			w.opSeq++
+			op.EndSeq = w.opSeq
+		}
 		s.Logf("op%03d done status=%d calls=%d body=%dB", op.ID, op.Status, len(op.Calls), len(op.RespBody))
 		s.Probe("nontrivial")
 		s.Probe(fmt.Sprintf("status.%s.%dxx", op.Kind, op.Status/100))
